@@ -261,3 +261,63 @@ Print Assumptions C06_joint_pass_solve_eq.
 Print Assumptions C06_joint_pass_other_keys.
 Print Assumptions C06_group_indices_joint_peq.
 Print Assumptions C06_group_indices_joint_same_members.
+
+(* ------------------------------------------------------------------------------------------------------------
+   Extension (result storing regenerated: Lemmas/ConstsGenLemmas.v about store_results_gen, the translation of int_fields.py _store_results) *)
+From Coq Require Import String List NArith ZArith Bool Arith.
+From Tealer Require Import Tables Syntax Parse Cfg StackAst Keys KeysGen CfgGen Analysis GraphGen SolverGen Domains ConstsGen CfgLemmas SubLemmas RewriteLemmas CfgGenLemmas LeafPrelude Leaves LeafLemmas AssertedLemmas Instances SolverLemmas Eval Runs Exec SingleLemmas ExecLemmas SolverGenLemmas ExactInstances ConstsGenLemmas.
+
+(* regenerated GroupIndices._store_results: sizes stored as they are, indices cut below the largest size *)
+Theorem C06_store_results_gen_eq :
+      forall (f : func) (d : gdict LZ) (ts ti : state LZ),
+       let bl := function_blocks f in
+       let sizes := ddict_get LZ d "GroupSize" in
+       let idx0 := ddict_get LZ d "GroupIndex" in
+       NoDup bl ->
+       NoDup (map fst idx0) ->
+       (forall b : nat, In b (map fst idx0) -> In b bl) ->
+       (forall b : nat,
+        In b bl ->
+        lookup LZ idx0 b <> None /\
+        lookup LZ sizes b <> None /\ lookup LZ ts b <> None /\ lookup LZ ti b <> None) ->
+       (forall (b : nat) (gi : LZ) (i : Z), lookup LZ idx0 b = Some gi -> In i gi -> (0 <= i)%Z) ->
+       exists (d' : gdict LZ) (ts' ti' : tctx_attr),
+         store_results_gen f d ts ti = Some (d', ts', ti') /\
+         ddict_get LZ d' "GroupSize" = sizes /\
+         ddict_get LZ d' "GroupIndex" = indices_of sizes idx0 /\
+         map fst ts' = map fst ts /\
+         map fst ti' = map fst ti /\
+         (forall b : nat, lookup LZ ts' b = (if nat_mem b bl then lookup LZ sizes b else lookup LZ ts b)) /\
+         (forall b : nat,
+          lookup LZ ti' b = (if nat_mem b bl then lookup LZ (indices_of sizes idx0) b else lookup LZ ti b)).
+Proof. exact @store_results_gen_eq. Qed.
+
+(* index below size and index soundness for what the regenerated _store_results writes into the block contexts *)
+Theorem C06_index_lt_size_regenerated :
+      forall (e : env) (sem : opsem) (f : func) (fuel : nat) (sizes idx0 : list (nat * LZ))
+         (cfgs : list rconfig) (d : gdict LZ) (ts ti : tctx_attr),
+       sem_ok e sem ->
+       env_ok e ->
+       fn_intcs f = e_intcs e ->
+       graph_ok f ->
+       int_leaves_ok f true ->
+       int_leaves_ok f false ->
+       run_int f fuel true = Done sizes ->
+       run_int f fuel false = Done idx0 ->
+       Accepts e sem f cfgs ->
+       ddict_get LZ d "GroupSize" = sizes ->
+       ddict_get LZ d "GroupIndex" = idx0 ->
+       NoDup (function_blocks f) ->
+       map fst ts = function_blocks f ->
+       map fst ti = function_blocks f ->
+       exists (d' : gdict LZ) (ts' ti' : tctx_attr),
+         store_results_gen f d ts ti = Some (d', ts', ti') /\
+         index_sound ti' (e_own e) cfgs /\
+         (forall (b : nat) (gs gi : LZ) (i : Z),
+          In b (function_blocks f) ->
+          lookup LZ ts' b = Some gs ->
+          lookup LZ ti' b = Some gi -> In i gi -> (0 <= i)%Z /\ (exists s : Z, In s gs /\ (i < s)%Z)).
+Proof. exact @C06_index_lt_size_regenerated. Qed.
+
+Print Assumptions C06_store_results_gen_eq.
+Print Assumptions C06_index_lt_size_regenerated.
